@@ -1,4 +1,5 @@
 """C02  Verdicts follow the documented rule language."""
+import covfam
 import gen
 import lib
 from lib import D, rule_text
@@ -19,6 +20,12 @@ def run(ck):
     for det in ({"A": {"foo": "foo*", "bar": "*bar"}, "B": {"foobar": ["foobar", "foobaz"]}, "condition": "A and B"},
                 {"A": {"all(phrase)": ["*quick*", "*brown*"]}, "B": {"phrase": "ibear"}, "condition": "A and not B"}):
         cases.append({"k": "rule", "id": ck.new_id(), "rule": rule_text(det), "docs": [D(d) for d in docs_ex], "sw": [0], "_docs": docs_ex})
+    # the coverage families (check/covfam.py): casts against every value kind, cast comparisons,
+    # lists beyond 64 needles, nested or-of-ands over arrays, loader errors
+    for fam, det, docs, extra in covfam.all_cases():
+        cases.append({"k": "rule", "id": ck.new_id(), "rule": rule_text(det, extra=extra), "docs": [D(d) for d in docs], "sw": [0],
+                      "_docs": docs, "_fam": fam})
+        ck.count("family:" + fam)
     wit = []
     for entry, w in rulebase.known_witnesses("C02"):
         if w:
@@ -78,7 +85,7 @@ def run(ck):
         "with and/or/not/all()/of()/casts) x 8 documents derived from each rule; the crate's three-valued result is compared with "
         "the extracted reference semantics Model/Spec.v, which works from the YAML of the rule and the document value, not from "
         "the engine's expression tree; a difference is suppressed only when the engine model reproduces the crate AND a listed "
-        "classifier (D10/D11, D24, D26, D27, D28) accepts the rule. Non-trivial = result not constant over the documents.")
+        "classifier (D10/D11, D24, D26, D27, D28, D30, D32) accepts the rule. Non-trivial = result not constant over the documents.")
     for c in cases[:2] + cases[-1:]:
         ck.sample({"rule": c["rule"][:500], "crate": common.strip_extra(impl[c["id"]])[-60:], "reference": common.spec_of(model[c["id"]])})
     common.compare(ck, send, impl, model, "loader + solver (unoptimised)", "refinement of Model/Spec.v", direct_failed)
